@@ -284,9 +284,52 @@ Ltac fields :=
   cbn [last_ts last_sent last_cons hs_seq hs_state with_responder_session with_initiator_session
        set_staged with_initiation shift_peer restart_peer remove_peer].
 
+(* Events "inside the response-processing window" (BRespWindow) are composite: each lemma about one
+   step is proved for them separately (suffix _w: all paths of resp_window are enumerated). *)
+Definition is_window (e : event) : bool :=
+  match e_body e with BRespWindow _ _ _ => true | _ => false end.
+
+Ltac bmi :=
+  match goal with
+  | |- context [match ?x with _ => _ end] =>
+      lazymatch x with
+      | context [match _ with _ => _ end] => fail
+      | _ => destruct x eqn:?
+      end
+  end.
+
+Ltac wexplode :=
+  unfold resp_window, resp_phase1, wact_step, begin_initiator, recv, consume_initiation, consume_response, send_initiation;
+  cbv zeta;
+  repeat (bmi; cbn [fst snd peers set_table set_peer nseq table]).
+Ltac wfields :=
+  cbn [last_ts last_sent last_cons hs_seq hs_state with_responder_session with_initiator_session
+       set_staged with_initiation shift_peer restart_peer remove_peer with_response_consumed add_rx].
+
+Ltac wclose :=
+  try (norm; subst; wfields; lia);
+  repeat match goal with H : (?x =? ?y) = ?b, H2 : context [?x =? ?y] |- _ => rewrite H in H2 end;
+  cbn [peers set_peer set_table last_ts last_sent last_cons hs_seq hs_state with_responder_session with_initiator_session
+       set_staged with_initiation shift_peer with_response_consumed add_rx] in *;
+  norm; subst; wfields; lia.
+
+Ltac wprep :=
+  repeat match goal with H : (?x =? ?y) = ?b, H2 : context [?x =? ?y] |- _ => rewrite H in H2 end;
+  cbn [peers set_peer set_table nseq last_ts last_sent last_cons hs_seq hs_state with_responder_session with_initiator_session
+       set_staged with_initiation shift_peer with_response_consumed add_rx] in *;
+  norm; subst; wfields.
+
+Lemma last_ts_mono_w st now src oidx m w p :
+  last_ts (peers st p) <= last_ts (peers (fst (resp_window st now src oidx m w)) p).
+Proof. wexplode. all: wclose. Qed.
+
 (* lastTimestamp never decreases *)
 Lemma last_ts_mono st e p : last_ts (peers st p) <= last_ts (peers (fst (step st e)) p).
-Proof. explode; norm; subst; fields; lia. Qed.
+Proof.
+  destruct (is_window e) eqn:W.
+  - unfold is_window in W. unfold step. destruct (e_body e); try discriminate W. apply last_ts_mono_w.
+  - revert W. unfold is_window. explode; intros NW; try discriminate NW; norm; subst; fields; lia.
+Qed.
 
 Lemma accepted_init_step st e src m :
   e_body e = BMsg src m -> m_kind m = KInit -> existsb is_resp (snd (step st e)) = true ->
@@ -316,7 +359,7 @@ Proof.
     assert (Weak : Forall (fun t => last_ts (peers st p) < t)
                      (acc_ts p evs (outs step (fst (step st e)) evs))).
     { eapply Forall_impl; [|exact IHb]. cbn. intros. lia. }
-    destruct (e_body e) as [src m|q inner|q d| |on|q|q k] eqn:B; try (split; assumption).
+    destruct (e_body e) as [src m|q inner|q d| |on|q|wsrc wm ww|q k] eqn:B; try (split; assumption).
     destruct (m_kind m) eqn:K; [|split; assumption].
     destruct (existsb is_resp (snd (step st e))) eqn:NE; cbn [andb]; [|split; assumption].
     destruct (m_static m =? p) eqn:Ep; [|split; assumption].
@@ -351,15 +394,38 @@ Qed.
 Lemma seq_ok_init cfg now0 : seq_ok (init cfg now0).
 Proof. intros p. cbn. rewrite init_peers_seq. lia. Qed.
 
+Lemma step_nseq_w st now src oidx m w : nseq st <= nseq (fst (resp_window st now src oidx m w)).
+Proof. wexplode. all: lia. Qed.
+
 Lemma step_nseq st e : nseq st <= nseq (fst (step st e)).
-Proof. explode; lia. Qed.
+Proof.
+  destruct (is_window e) eqn:W.
+  - unfold is_window in W. unfold step. destruct (e_body e); try discriminate W. apply step_nseq_w.
+  - revert W. unfold is_window. explode; intros NW; try discriminate NW; lia.
+Qed.
+
+
+Lemma step_seq_w st now src oidx m w p :
+    (hs_seq (peers (fst (resp_window st now src oidx m w)) p) = hs_seq (peers st p) /\
+     (hs_state (peers (fst (resp_window st now src oidx m w)) p) = 1 -> hs_state (peers st p) = 1))
+    \/ (hs_seq (peers (fst (resp_window st now src oidx m w)) p) = nseq st + 1 /\ nseq (fst (resp_window st now src oidx m w)) = nseq st + 1).
+Proof.
+  wexplode.
+  all: wprep;
+    first [ left; split; [reflexivity | solve [auto | intros X; discriminate X | congruence]]
+          | right; split; reflexivity
+          | exfalso; congruence | exfalso; lia
+          | match goal with |- ?G => idtac G end ].
+Qed.
 
 Lemma step_seq st e p :
     (hs_seq (peers (fst (step st e)) p) = hs_seq (peers st p) /\
      (hs_state (peers (fst (step st e)) p) = 1 -> hs_state (peers st p) = 1))
     \/ (hs_seq (peers (fst (step st e)) p) = nseq st + 1 /\ nseq (fst (step st e)) = nseq st + 1).
 Proof.
-  explode; norm; subst; fields;
+  destruct (is_window e) eqn:W.
+  - unfold is_window in W. unfold step. destruct (e_body e); try discriminate W. apply step_seq_w.
+  - revert W. unfold is_window. explode; intros NW; try discriminate NW; norm; subst; fields;
     first [ left; split; [reflexivity | solve [auto | intros X; discriminate X]]
           | right; split; reflexivity ].
 Qed.
@@ -457,12 +523,28 @@ Qed.
 Lemma map_otrans_not_init a b c L x : map (fun l => OTrans a b c l) L = [x] -> is_resp x = false /\ (forall t p s ts, x <> OInit t p s ts).
 Proof. destruct L as [|l L]; cbn; intros H; inversion H; subst. split; [reflexivity|discriminate]. Qed.
 
+Lemma step_emits_init_w st now src oidx m w to p s ts :
+  snd (resp_window st now src oidx m w) = [OInit to p s ts] ->
+  hs_seq (peers (fst (resp_window st now src oidx m w)) p) = nseq st + 1 /\ nseq (fst (resp_window st now src oidx m w)) = nseq st + 1.
+Proof.
+  wexplode.
+  all: intros O; cbn [app] in O; try discriminate O;
+       try (exfalso; apply map_otrans_not_init in O; destruct O as [_ O]; eapply O; reflexivity);
+       try (exfalso; match type of O with map _ (flush_lens ?P) ++ _ = _ => destruct (flush_lens P) eqn:FL; [exact (flush_lens_ne P FL)|cbn in O; discriminate O] end);
+       try (exfalso; inversion O; match goal with H : map _ (flush_lens ?P) = [] |- _ => apply map_eq_nil in H; exact (flush_lens_ne P H) end).
+  all: inversion O; subst; wprep; rewrite ?N.eqb_refl; cbn;
+       first [ split; reflexivity | exfalso; congruence | exfalso; lia | match goal with |- ?G => idtac G end ].
+Qed.
+
 Lemma step_emits_init st e to p s ts :
   snd (step st e) = [OInit to p s ts] ->
   hs_seq (peers (fst (step st e)) p) = nseq st + 1 /\ nseq (fst (step st e)) = nseq st + 1.
 Proof.
-  unfold step, recv, consume_initiation, consume_response, tun_packet, send_initiation;
-  repeat bm; cbn [fst snd]; intros O; try discriminate O;
+  destruct (is_window e) eqn:W;
+    [unfold is_window in W; unfold step; destruct (e_body e); try discriminate W; apply step_emits_init_w|].
+  revert W.
+  unfold is_window, step, recv, consume_initiation, consume_response, tun_packet, send_initiation;
+  repeat bm; cbn [fst snd]; intros NW O; try discriminate NW; try discriminate O;
     try (exfalso; apply map_otrans_not_init in O; destruct O as [_ O]; eapply O; reflexivity).
   all: inversion O; subst; cbn [peers set_peer nseq]; rewrite N.eqb_refl; cbn; split; reflexivity.
 Qed.
@@ -485,8 +567,9 @@ Qed.
 
 (* ------------------------------------------- emitted timestamps increase *)
 Definition is_reset (e : event) : bool :=
-  match e_body e with BShift _ _ | BRestart => true | _ => false end.
-(* (BLoad does not touch lastSentHandshake: it is not a reset) *)
+  match e_body e with BShift _ _ | BRestart | BRespWindow _ _ (WShiftInitiate _ _) => true | _ => false end.
+(* (BLoad does not touch lastSentHandshake: it is not a reset; a window event is one when it
+   contains the time-shift hook) *)
 
 Fixpoint mono_from (t : N) (evs : list event) : Prop :=
   match evs with
@@ -506,6 +589,27 @@ Proof. intros H R. apply val_stamp_strict; [|exact R]. pose proof rekey_ge_white
 Lemma emitted_in_otrans p a b c L : emitted_in p (map (fun l => OTrans a b c l) L) = [].
 Proof. induction L; cbn; auto. Qed.
 
+Lemma emitted_in_app p a b : emitted_in p (a ++ b) = emitted_in p a ++ emitted_in p b.
+Proof. induction a as [|x a IH]; cbn; [reflexivity|]. destruct x; cbn; try exact IH. destruct (p0 =? p); cbn; rewrite IH; reflexivity. Qed.
+
+Definition shiftless (w : wact) : bool := match w with WShiftInitiate _ _ => false | _ => true end.
+
+Lemma emit_step_w st now src oidx m w p :
+  shiftless w = true -> last_sent (peers st p) <= now ->
+  let r := resp_window st now src oidx m w in
+  (emitted_in p (snd r) = [] /\
+   last_sent (peers st p) <= last_sent (peers (fst r) p) /\ last_sent (peers (fst r) p) <= now)
+  \/ (emitted_in p (snd r) = [stamp_val now] /\
+      last_sent (peers st p) + RekeyTimeout <= now /\ last_sent (peers (fst r) p) = now).
+Proof.
+  intros SL LE r. subst r. revert SL LE. unfold shiftless.
+  wexplode.
+  all: intros SL LE; try discriminate SL; rewrite ?emitted_in_app, ?emitted_in_otrans; cbn [emitted_in app]; repeat bm.
+  all: wprep; cbn [last_sent set_staged] in *;
+    first [ left; repeat split; (reflexivity || lia) | right; repeat split; (reflexivity || lia)
+          | exfalso; congruence | exfalso; lia | match goal with |- ?G => idtac G end ].
+Qed.
+
 (* effect of one non-reset event at time now >= last_sent on last_sent and on the emitted list *)
 Lemma emit_step st e p :
   is_reset e = false -> last_sent (peers st p) <= e_now e ->
@@ -515,9 +619,13 @@ Lemma emit_step st e p :
   \/ (emitted_in p (snd (step st e)) = [stamp_val (e_now e)] /\
       last_sent (peers st p) + RekeyTimeout <= e_now e /\ last_sent (peers st1 p) = e_now e).
 Proof.
-  intros NR LE. unfold is_reset in NR. revert NR.
+  intros NR LE. destruct (is_window e) eqn:W.
+  { unfold is_window in W. unfold is_reset in NR. unfold step.
+    destruct (e_body e) as [| | | | | |wsrc wm ww|]; try discriminate W.
+    apply emit_step_w; [destruct ww; (reflexivity || discriminate NR)|exact LE]. }
+  unfold is_reset in NR. revert NR. revert W. unfold is_window.
   unfold step, recv, consume_initiation, consume_response, tun_packet, send_initiation.
-  repeat bm; intros NR; try discriminate NR;
+  repeat bm; intros W NR; try discriminate NR; try discriminate W;
     cbn [fst snd peers set_table set_peer]; rewrite ?emitted_in_otrans; cbn [emitted_in]; repeat bm;
     norm; subst; try congruence; fields; cbn [last_sent set_staged] in *;
     first [ left; repeat split; (reflexivity || lia) | right; repeat split; (reflexivity || lia) ].
@@ -586,4 +694,95 @@ Proof.
                 = [stamp_val 1700000000101000000; stamp_val 1700000000101000000]) by (vm_compute; reflexivity).
     rewrite E. intros H. inversion H as [|a l S F]; subst. inversion F as [|b l' Hlt _]; subst.
     exact (N.lt_irrefl _ Hlt).
+Qed.
+
+(* ------------------------------------ event inside the response window *)
+(* What the worker does after the window when the handshake is no longer in state
+   responseConsumed: BeginSymmetricSession fails — only rxBytes moves.  Everything else
+   (outputs, index table, initiation counter, key slots, handshake, lastHandshake counter of
+   the peer; every other peer) is what the in-window event alone produced. *)
+Theorem window_supersede_no_session st now src oidx m w p :
+  resp_phase1 st m = Some p ->
+  let st1 := set_peer st p (with_response_consumed (peers st p) src m) in
+  let r2 := wact_step st1 now oidx w in
+  hs_state (peers (fst r2) p) <> 4 ->
+  let r := resp_window st now src oidx m w in
+  snd r = snd r2 /\ table (fst r) = table (fst r2) /\ nseq (fst r) = nseq (fst r2) /\
+  kcur (peers (fst r) p) = kcur (peers (fst r2) p) /\
+  kprev (peers (fst r) p) = kprev (peers (fst r2) p) /\
+  knext (peers (fst r) p) = knext (peers (fst r2) p) /\
+  lh (peers (fst r) p) = lh (peers (fst r2) p) /\
+  hs_state (peers (fst r) p) = hs_state (peers (fst r2) p) /\
+  hs_local (peers (fst r) p) = hs_local (peers (fst r2) p) /\
+  rx (peers (fst r) p) = rx (peers (fst r2) p) + m_len m /\
+  forall q, q <> p -> peers (fst r) q = peers (fst r2) q.
+Proof.
+  intros H st1 r2 NE r. unfold r, resp_window. rewrite H. fold st1. fold r2.
+  destruct (hs_state (peers (fst r2) p) =? 4) eqn:E; [apply N.eqb_eq in E; contradiction|].
+  cbn [fst snd table nseq set_peer peers]. rewrite N.eqb_refl. cbn.
+  repeat split. intros q Hq. apply N.eqb_neq in Hq. rewrite Hq. reflexivity.
+Qed.
+
+Lemma in_otrans_not x a b c L : In x (map (fun l => OTrans a b c l) L) -> is_trans x = true.
+Proof. intros I. apply in_map_iff in I. destruct I as (l & E & _). subst. reflexivity. Qed.
+
+(* a new initiation for p left inside the window: p's handshake is initiationCreated again *)
+Lemma wact_new_initiation st now oidx w to p s ts :
+  In (OInit to p s ts) (snd (wact_step st now oidx w)) ->
+  hs_state (peers (fst (wact_step st now oidx w)) p) = 1.
+Proof.
+  unfold wact_step, send_initiation, recv, consume_initiation, consume_response.
+  repeat bm; cbn [fst snd]; intros I;
+    try (apply in_otrans_not in I; discriminate I);
+    try (destruct I as [I|[]]; inversion I; subst; cbn [peers set_peer set_table]; rewrite N.eqb_refl; reflexivity);
+    try (destruct I as [I|[]]; discriminate I);
+    try contradiction.
+Qed.
+
+(* an initiation of p was answered inside the window: p's handshake is zeroed (the responder
+   session sits in next) *)
+Lemma wact_answered_initiation st now oidx w to p s r o :
+  In (OResp to p s r o) (snd (wact_step st now oidx w)) ->
+  hs_state (peers (fst (wact_step st now oidx w)) p) = 0.
+Proof.
+  unfold wact_step, send_initiation, recv, consume_initiation, consume_response.
+  repeat bm; cbn [fst snd]; intros I;
+    try (apply in_otrans_not in I; discriminate I);
+    try (destruct I as [I|[]]; inversion I; subst; cbn [peers set_peer set_table]; rewrite N.eqb_refl; reflexivity);
+    try (destruct I as [I|[]]; discriminate I);
+    try contradiction.
+Qed.
+
+(* the other direction: an in-window event that leaves the handshake of p in state
+   responseConsumed is followed by the normal initiator completion *)
+Theorem window_untouched_completes st now src oidx m w p :
+  resp_phase1 st m = Some p ->
+  let st1 := set_peer st p (with_response_consumed (peers st p) src m) in
+  let r2 := wact_step st1 now oidx w in
+  hs_state (peers (fst r2) p) = 4 ->
+  resp_window st now src oidx m w =
+    (fst (begin_initiator (fst r2) p src m), snd r2 ++ snd (begin_initiator (fst r2) p src m)).
+Proof.
+  intros H st1 r2 E. unfold resp_window. rewrite H. fold st1. fold r2. rewrite E. reflexivity.
+Qed.
+
+(* a response that is not consumable makes the window event the sequential one *)
+Theorem window_unconsumable_sequential st now src oidx m w :
+  resp_phase1 st m = None ->
+  resp_window st now src oidx m w =
+    (fst (wact_step (fst (recv st now src oidx m)) now oidx w),
+     snd (recv st now src oidx m) ++ snd (wact_step (fst (recv st now src oidx m)) now oidx w)).
+Proof. intros H. unfold resp_window. rewrite H. reflexivity. Qed.
+
+(* ... and then the response itself was inert (when the device is not under load) *)
+Theorem window_unconsumable_response_inert st now src oidx m :
+  m_kind m = KResp -> loaded st = false -> resp_phase1 st m = None -> recv st now src oidx m = (st, []).
+Proof.
+  intros K L. unfold resp_phase1, recv.
+  destruct (gate (wire_type m) (m_len m)) as [k|] eqn:G; [|reflexivity].
+  destruct (mac1_ok k m) eqn:M; [|reflexivity].
+  pose proof (mac1_needs_kind _ _ M) as E. rewrite K in E. subst k. rewrite M, L. cbn [negb].
+  unfold consume_response.
+  destruct (lookup (table st) (m_receiver m)) as [e|]; [|reflexivity].
+  repeat bm; intros X; try reflexivity; discriminate X.
 Qed.
